@@ -207,7 +207,10 @@ def check_cartesian_flow(ctx):
     st = si.statement(gen) or si.statement(c)
     defs = [s for s in fv.statements() if isinstance(s, ast.Assign) and U(s.targets[0]) == posname]
     last = defs[-1] if defs else None
-    okn = last is not None and U(last.value) == f"grid.normalize_point(grid.transform({posname}, 'cell', 'grid'))" and fv.dominates(last, st)
+    import re as _re
+
+    # the wrapped array may keep its name or get a new one (`grid_positions = normalize_point(transform(positions, …))`)
+    okn = last is not None and _re.fullmatch(r"grid\.normalize_point\(grid\.transform\((\w+), 'cell', 'grid'\)\)", U(last.value)) is not None and fv.dominates(last, st)
     loops = [s for s in fv.statements() if isinstance(s, ast.For) and "periodic" in U(s.iter)]
     loops = [s for s in loops if not any(s is not o and any(x is s for x in ast.walk(o)) for o in loops)]  # outermost only
     okn = okn and all(fv.dominates(lp, last) for lp in loops)
@@ -857,6 +860,13 @@ def check_dedup_metric(ctx, rule="METRIC"):
     c = calls[0]
     g = arg_or_kw(c, 1, "grid")
     ok = g is not None and U(fv.expand(g, c, stop=("mask",))) == "mask.grid"
+    md = arg_or_kw(c, 0, "min_distance")
+    if md is not None and not (isinstance(md, ast.Constant) and md.value == 0):
+        ctx.violate(rule, CART + ":dedup:min-distance", (fi, c),
+                    f"`{U(c)}` removes candidates closer than `{U(md)}`: remove_overlapping measures that distance in the grid's length unit, so on a grid whose spacing is not 1 well separated "
+                    "droplets (many cells apart, but less than that length) are removed as duplicates")
+    else:
+        ctx.hold(rule, CART + ":dedup:min-distance", (fi, c), "only overlapping candidates (surface distance < 0) count as duplicates")
     ctx.decide(ok, rule, CART + ":dedup", (fi, c), "duplicates are removed under the grid's periodic metric",
                f"`{U(c)}` measures the overlap of the candidates without the grid: spheres that overlap only across a periodic boundary are both kept (or, for translated patterns, a different number "
                "of droplets survives), so the count depends on where the boundary lies")
